@@ -80,12 +80,12 @@ def enc_list(xs):
     return "".join("\x1f" + x for x in xs)
 
 
-def impl_pybind(text, tpl, module_name, top, boost, ignore, subs):
+def impl_pybind(text, tpl, module_name, top, boost, ignore, subs, xml_source=""):
     """the real generator, in-process; returns ('ok', text) | ('err', kind)"""
     from gtwrap.pybind_wrapper import PybindWrapper
     try:
         w = PybindWrapper(module_name=module_name, top_module_namespaces=list(top), use_boost_serialization=boost,
-                          ignore_classes=list(ignore), module_template=tpl)
+                          ignore_classes=list(ignore), module_template=tpl, xml_source=xml_source)
         out = w.wrap_file(text, module_name=module_name, submodules=None if subs is None else list(subs))
         return ("ok", out)
     except Exception as e:  # noqa
